@@ -330,6 +330,9 @@ func (sp *FuncSpec) allTags() []string {
 }
 
 func (fc *FnCtx) addObligAt(o *Oblig, b *ssa.BasicBlock, seq int) {
+	if fc.relMode && !strings.HasPrefix(o.Kind, "rel") && !strings.HasSuffix(o.Name, "/rel-cover") {
+		return
+	}
 	o.block = b
 	o.seq = seq
 	o.Fn = fc.spec.Name
@@ -549,3 +552,140 @@ func (g *Gen) discharge(fcs []*FnCtx, filter func(*Oblig) bool) {
 }
 
 var _ = types.Typ
+
+// verifyRelational: two runs of the same function (left, right) in one context, loops in lock-step.
+// Relational clauses relate the runs through L(e), R(e) and same(e).
+func (g *Gen) verifyRelational(fn *ssa.Function, sp *FuncSpec) *FnCtx {
+	fc := g.newFnCtx(fn, sp)
+	fc.relMode = true
+	fc.thin = true
+	fc.computeAnc(fn)
+	fc.computeSiteOrdinals(fn)
+	fc.curBlock = fn.Blocks[0]
+	entry := fc.baseState()
+	fc.entry = entry
+	mk := func(tag string) *Frame {
+		fr := fc.newFrame(fn, nil)
+		fr.isTop = true
+		fr.relTag = tag
+		fr.params = map[string]Val{}
+		fr.relSites = map[string]*relPoint{}
+		names := sp.paramNames(fn, fn.Signature, false)
+		for i, p := range fn.Params {
+			v := fc.freshVal(p.Type(), tag+"!p!"+p.Name())
+			fr.vals[p] = v
+			fc.define(fc.typingFacts(entry, v))
+			if i < len(names) {
+				fr.params[names[i]] = v
+			}
+			fr.params[p.Name()] = v
+		}
+		if fn.Signature.Recv() != nil && len(fn.Params) > 0 && kindOf(fn.Params[0].Type()) == KRef {
+			fc.define(sNot(sEq(fr.vals[fn.Params[0]].S, "0")))
+		}
+		return fr
+	}
+	frL, frR := mk("L"), mk("R")
+	fc.top = frL
+	relEnv := func(l, r *Env) *Env {
+		return &Env{fc: fc, names: map[string]Val{}, state: l.state, old: entry, pkg: g.pkg.Pkg, errs: &fc.errs, relL: l, relR: r}
+	}
+	// unary preconditions of both runs, relational preconditions
+	envL, envR := frL.specEnv(entry, nil, nil), frR.specEnv(entry, nil, nil)
+	for _, c := range sp.Requires {
+		if fc.modeOK(c) {
+			fc.assume(envL.bool(c.Expr), "precondition (left run)")
+			fc.assume(envR.bool(c.Expr), "precondition (right run)")
+		}
+	}
+	for _, c := range sp.RelRequires {
+		fc.assume(relEnv(envL, envR).bool(c.Expr), "relational precondition "+c.Text)
+	}
+	frL.tagStr = "L!"
+	frL.run(entry, "true")
+	fc.relLeft = frL
+	fc.callOrd = map[string]int{}
+	frR.tagStr = "R!"
+	frR.run(entry, "true")
+
+	pointEnv := func(fr *Frame, p *relPoint, head *ssa.BasicBlock) *Env {
+		e := fr.specEnv(p.st, head, p.vals)
+		if p.args != nil {
+			for k, v := range p.args {
+				e.names[k] = v
+			}
+			e.localsFirst = true
+			blk, in := p.block, p.in
+			e.lookup = func(n string, s *State) (Val, bool) { return fr.lookupLocalAt(n, s, blk, in) }
+		}
+		return e
+	}
+	mergeLatch := func(fr *Frame, li *loopInfo) *relPoint {
+		if len(li.relLatch) == 0 {
+			return nil
+		}
+		var sts []*State
+		var conds []string
+		for _, p := range li.relLatch {
+			sts = append(sts, p.st)
+			conds = append(conds, p.cond)
+		}
+		m := &relPoint{vals: map[*ssa.Phi]Val{}, st: fc.mergeStates(sts, conds), cond: sOr(conds...)}
+		for ph := range li.relLatch[0].vals {
+			var vs []Val
+			for _, p := range li.relLatch {
+				vs = append(vs, p.vals[ph])
+			}
+			m.vals[ph] = fr.mergeVals(ph.Type(), vs, conds)
+		}
+		return m
+	}
+	for i, liL := range frL.loops {
+		if i >= len(frR.loops) {
+			break
+		}
+		liR := frR.loops[i]
+		var invs []*Clause
+		for _, c := range sp.RelInvs {
+			if c.Loop == liL.ord {
+				invs = append(invs, c)
+			}
+		}
+		if len(invs) == 0 || liL.relHead == nil || liR.relHead == nil {
+			continue
+		}
+		latL, latR := mergeLatch(frL, liL), mergeLatch(frR, liR)
+		for _, c := range invs {
+			if liL.relEntry != nil && liR.relEntry != nil {
+				f := relEnv(pointEnv(frL, liL.relEntry, liL.head), pointEnv(frR, liR.relEntry, liR.head)).bool(c.Expr)
+				fc.addObligAt(&Oblig{Name: fmt.Sprintf("%s/rel-inv-entry#L%d.%d", sp.Name, liL.ord, c.Ord), Kind: "rel-inv-entry", Tags: c.Tags,
+					goal: sImp(sAnd(liL.relEntry.cond, liR.relEntry.cond), f), Text: c.Text, Spec: c}, nil, 1<<30)
+			}
+			if latL != nil && latR != nil {
+				f := relEnv(pointEnv(frL, latL, liL.head), pointEnv(frR, latR, liR.head)).bool(c.Expr)
+				fc.addObligAt(&Oblig{Name: fmt.Sprintf("%s/rel-inv-preserve#L%d.%d", sp.Name, liL.ord, c.Ord), Kind: "rel-inv-preserve", Tags: c.Tags,
+					goal: sImp(sAnd(latL.cond, latR.cond), f), Text: c.Text, Spec: c}, nil, 1<<30)
+			}
+		}
+		if latL != nil && latR != nil {
+			// lock-step: from related loop heads, the two runs either both come back to the head or both leave
+			fc.addObligAt(&Oblig{Name: fmt.Sprintf("%s/rel-lockstep#L%d", sp.Name, liL.ord), Kind: "rel-lockstep", Tags: sp.allTags(),
+				goal: sImp(sAnd(liL.relHead.cond, liR.relHead.cond), sEq(latL.cond, latR.cond)), Text: "both runs take the same number of iterations"}, nil, 1<<30)
+		}
+	}
+	for _, c := range sp.RelAsserts {
+		pl, pr := frL.relSites[c.Site], frR.relSites[c.Site]
+		if pl == nil || pr == nil {
+			fc.errs = append(fc.errs, fmt.Sprintf("%s: relational assertion site %s does not bind in both runs", sp.Name, c.Site))
+			continue
+		}
+		f := relEnv(pointEnv(frL, pl, nil), pointEnv(frR, pr, nil)).bool(c.Expr)
+		fc.addObligAt(&Oblig{Name: fmt.Sprintf("%s/rel-assert#%d@%s", sp.Name, c.Ord, c.Site), Kind: "rel-assert", Tags: c.Tags,
+			goal: sImp(sAnd(pl.cond, pr.cond), f), Text: c.Text, Spec: c}, nil, 1<<30)
+	}
+	if len(fc.obligs) > 0 {
+		fc.addObligAt(&Oblig{Name: sp.Name + "/rel-cover", Kind: "cover", Cover: true, goal: "true", Tags: sp.allTags(), Text: "relational assumptions satisfiable"}, nil, 1<<30)
+	}
+	fc.applyAxioms()
+	return fc
+}
